@@ -57,8 +57,12 @@ fn record(f: &Flarm) -> Value {
     json!({
         "icao24": chars_json(&f.icao24.to_string()),
         // the address as the serialised record shows it (what JSON / Python consumers read)
-        "icao24_json": chars_json(serde_json::to_value(f).ok().as_ref()
-            .and_then(|v| v.get("icao24")).and_then(|v| v.as_str()).unwrap_or("<not a string>")),
+        // (letter case is not part of an address; a number is read as its six hex digits)
+        "icao24_json": chars_json(&match serde_json::to_value(f).ok().as_ref().and_then(|v| v.get("icao24")) {
+            Some(Value::String(t)) => t.to_ascii_lowercase(),
+            Some(Value::Number(n)) if n.as_u64().is_some() => format!("{:06x}", n.as_u64().unwrap()),
+            _ => "<not shown>".to_string(),
+        }),
         "is_icao24": f.is_icao24,
         "actype": f.actype.clone() as u8,
         "actype_name": name,
